@@ -1,8 +1,8 @@
 package main
 
 import (
-	"go/token"
 	"fmt"
+	"go/token"
 	"go/types"
 	"sort"
 	"strings"
@@ -21,7 +21,7 @@ type ringInfo struct {
 	fFR, fORD                  int
 	full, next                 *ssa.Function
 	methods                    map[string]*ssa.Function
-	capTerm string // what the constructor stores into the capacity field
+	capTerm                    string // what the constructor stores into the capacity field
 }
 
 func ringLeaf(st *types.Struct, fi int) string {
